@@ -41,6 +41,7 @@ class Profile:
         self.p_active_guard = 0.12     # guards that also read the configuration through active()
         self.active_in_actions = True  # actions may read the configuration through active()
         self.use_objects = False        # context holds an object, a list and a function defined in the preamble (b, l, ok)
+        self.p_failing_code = 0.08     # share of code blocks ending with a statement that raises when a bit of c is set
         self.p_event_probe = True      # entry / exit / action code may probe whether `event` is exposed to it
         self.p_brace_guard = 0.06      # guards whose text contains braces
         self.p_prefix_names = 0.08     # per chart: every state name is a proper prefix of the next one (n, n0, n00, ...)
@@ -128,7 +129,7 @@ class Gen:
                 elif k < 0.45:
                     parts.append("send('%s', v=x)" % ev)
                 elif k < 0.45 + self.p.p_notify:
-                    parts.append("notify('m%d', w=y)" % self.rng.randint(0, 1))
+                    parts.append(self.rng.choice(["notify('m%d', w=y)", "notify('m%d', w=y)", "notify('m%d', time=x)", "notify('m%d', event=y, state=x)"]) % self.rng.randint(0, 1))
                 else:
                     parts.append("send('%s')" % ev)
             elif r < 0.75 and self.p.use_objects and self.rng.random() < 0.3:
@@ -147,6 +148,10 @@ class Gen:
                 parts.append('tick()')     # a callable of the initial context that moves the clock DURING the step
             else:
                 parts.append('y = y + 2')
+        if allow_send and self.rng.random() < self.p.p_failing_code:
+            # a statement that raises (ZeroDivisionError -> CodeEvaluationError) when bit k of c is set: code can fail in the
+            # middle of a block, after it has sent events
+            parts.append('x = x // (1 - ((c >> %d) & 1))' % self.rng.randint(0, 13))
         return '\n'.join(parts)
 
     def cond(self, kind, with_old=True):
